@@ -4,6 +4,9 @@ import VelaVerif.Spec.TfliteFile
 import VelaVerif.Lemmas.TfliteWriter
 import VelaVerif.Lemmas.TfliteReader
 import VelaVerif.Model.TfliteDemo
+import VelaVerif.Lemmas.TfliteConforms
+import VelaVerif.Lemmas.TfliteConformsMeta
+import VelaVerif.Lemmas.TfliteLoop
 /-!
 # C11 / C14 — the TFLite writer and reader (Model/TfliteWriter.lean, Model/TfliteReader.lean)
 
@@ -79,13 +82,15 @@ theorem written_tensors (d : Desc) (enum : List Code) (m : ModelT) (h : writeWit
 
 /-- **tensor_indices_bijective.** The tensor list of a written subgraph has no repetition and as many entries as the file's
 tensor table: "position in the table" and "tensor of the graph that is written" are in one-to-one correspondence; a tensor is
-written iff it is an original input or an operand of a written operator or of a Placeholder. -/
+written iff it is an original input, an operand of a written operator or of a Placeholder, or (repair C11-60) a subgraph output
+that is left after the virtual outputs were removed. -/
 theorem tensor_indices_bijective (d : Desc) (enum : List Code) (m : ModelT) (h : writeWith d enum = .ok m) :
     ∃ subs, (subgraphsToWrite d).mapM (prepSub d.tensors) = .ok subs ∧
       ∀ (k : Nat) ps sg, subs[k]? = some ps → m.subgraphs[k]? = some sg →
         (sgAll d.tensors ps).Nodup ∧ sg.tensors.length = (sgAll d.tensors ps).length ∧
         ∀ g, g ∈ sgAll d.tensors ps ↔
-          g ∈ ps.sg.originalInputs ∨ ∃ op ∈ sgOps ps, (op.ignored = false ∨ op.placeholder = true) ∧ some g ∈ op.operands := by
+          (g ∈ ps.sg.originalInputs ∨ ∃ op ∈ sgOps ps, (op.ignored = false ∨ op.placeholder = true) ∧ some g ∈ op.operands) ∨
+            g ∈ sgOuts ps := by
   obtain ⟨subs, _, st, _, h1, _, _, _, _, acc, _⟩ := write_facts d enum m h
   refine ⟨subs, h1, ?_⟩
   intro k ps sg hk hs
@@ -193,7 +198,31 @@ theorem written_interface (d : Desc) (enum : List Code) (m : ModelT) (h : writeW
   rw [mem_sgAll]
   unfold sgSet
   rw [mem_tensorSet]
-  exact Or.inl hg
+  exact Or.inl (Or.inl hg)
+
+/-- **written_outputs_complete** (repair C11-60: a constant that only the output list names used to be left out of the tensor table
+and then silently dropped from the file's output list). Every entry of the expanded output list is a written tensor, so the filter
+in `written_interface` drops nothing: the file's output list has one entry per listed output, each the table position of that very
+tensor. -/
+theorem written_outputs_complete (d : Desc) (enum : List Code) (m : ModelT) (h : writeWith d enum = .ok m) :
+    ∃ subs, (subgraphsToWrite d).mapM (prepSub d.tensors) = .ok subs ∧
+      ∀ (k : Nat) ps sg, subs[k]? = some ps → m.subgraphs[k]? = some sg →
+        ∃ outs2 outs, outputList ps.sg.originalOutputPositions (sgOuts ps) = .ok outs2 ∧ sg.outputs = some outs ∧
+          List.Forall₂ (fun g (i : Int) => ∃ n : Nat, i = n ∧ (sgAll d.tensors ps)[n]? = some g) outs2 outs := by
+  obtain ⟨subs, h1, hw⟩ := written_interface d enum m h
+  refine ⟨subs, h1, ?_⟩
+  intro k ps sg hk hs
+  obtain ⟨_, ⟨outs2, outs, ho, hou, hf⟩, _⟩ := hw k ps sg hk hs
+  refine ⟨outs2, outs, ho, hou, ?_⟩
+  have hall : outs2.filter (· ∈ sgAll d.tensors ps) = outs2 := by
+    rw [List.filter_eq_self]
+    intro g hg
+    have hg2 : g ∈ sgOuts ps := Spec.specOuts2_sub ps g (by rw [Spec.specOuts2_eq ps outs2 ho]; exact hg)
+    have : g ∈ sgAll d.tensors ps := by
+      rw [mem_sgAll]; unfold sgSet; rw [mem_tensorSet]; exact Or.inr hg2
+    simpa using this
+  rw [hall] at hf
+  exact hf
 
 /-- **buffers_consistent.** Every buffer index written (by a tensor, by a metadata entry) is in range; as soon as one
 subgraph is written, buffer 0 exists and carries no data; no buffer other than 0 is used twice — not by two tensors (of the same
@@ -499,6 +528,84 @@ theorem written_operand_order (ts : List TensorD) (op : OpD) (p : POp) (h : prep
     restoredInputs ts p.info op.inputs = .ok p.inputs :=
   prepOp_ok ts op p h
 
+/-! ## (a) assembled: `Reader.read (Writer.write d) = Spec.normalise d`
+
+`Spec.normalise` (Spec/TfliteRoundtrip.lean) is defined on the graph description alone: tensors per written subgraph in the writer's
+order and in the reader's normal form, references renumbered, operators as written (`src_tensor` restored, absent results dropped,
+operator code read back) and then the reader's own graph surgery applied at graph level — virtual outputs, **clone restoration**
+(constant weights / bias cloned again: `Reader.cloneStep`), Const / Placeholder producers, visibility — the interface lists
+de-duplicated, metadata with `bytes` names. The theorem composes the layers (`Lemmas/TfliteLoop.lean`: `tensors_norm`,
+`rcode_of_written`, `parseOperator_norm`, `parseOperators_norm`, `readSubgraph_norm`, `readSubgraphs_norm`, `readMetadata_norm`). -/
+
+/-- **read_write_roundtrip.** For every description the writer accepts (`write d = ok m` — the writer's domain, no further
+hypothesis) the reader's result on the written file is `normalise d`, as `Except` values: the same graph when the reader succeeds,
+and the same error kind when it does not (constant data that does not fit the written shape, weights of the wrong rank for the
+clone, a subgraph input that a written operator produces). Also for any iteration order of the code set (`read_writeWith`). -/
+theorem read_write_roundtrip (d : Desc) (m : ModelT) (h : write d = .ok m) : Reader.read d.version m = Spec.normalise d := by
+  cases hs : (subgraphsToWrite d).mapM (prepSub d.tensors) with
+  | error e => rw [(write_err d e hs []).1] at h; exact absurd h (by simp)
+  | ok subs =>
+    rw [write_eq d subs hs] at h
+    exact Spec.read_writeWith d subs hs _ m h
+
+theorem read_writeWith_roundtrip (d : Desc) (enum : List Code) (m : ModelT) (h : writeWith d enum = .ok m) :
+    Reader.read d.version m = Spec.normalise d := by
+  obtain ⟨subs, _, _, _, _, hs, _⟩ := writeWith_ok d enum m h
+  exact Spec.read_writeWith d subs hs enum m h
+
+/-- the domain on which the loop closes, explicit and executable: `write` and `normalise` succeed, i.e. the writer accepts `d`, every
+constant has the size of its written shape (`Reader.checkData`), constant weights of convolution-like operators have the rank the
+clone transposes (`Reader.cloneStep`), no subgraph input is the result of a written operator (`Tensor.error`) -/
+def roundtripDomainB (d : Desc) : Bool := (write d).toOption.isSome && (Spec.normalise d).toOption.isSome
+
+/-- on that domain: the reader accepts the written file and builds exactly the normal form -/
+theorem read_write_roundtrip_ok (d : Desc) (hd : roundtripDomainB d = true) :
+    ∃ m d', write d = .ok m ∧ Spec.normalise d = .ok d' ∧ Reader.read d.version m = .ok d' := by
+  unfold roundtripDomainB at hd
+  simp only [Bool.and_eq_true] at hd
+  cases hw : write d with
+  | error e => rw [hw] at hd; simp [Except.toOption] at hd
+  | ok m =>
+    cases hn : Spec.normalise d with
+    | error e => rw [hn] at hd; simp [Except.toOption] at hd
+    | ok d' => exact ⟨m, d', rfl, rfl, by rw [read_write_roundtrip d m hw, hn]⟩
+
+/-- not vacuous: the demo graph is in the domain; its normal form has the 7 written tensors in name order plus the re-created clone
+of the constant weights (8), the three written operators behind five Const / Placeholder producers, the convolution reading the
+clone (tensor 7) again with the `None` bias, inputs `x`, `unused` renumbered, the repeated output de-duplicated with positions `[0, 0]` -/
+example : roundtripDomainB demo = true := by decide +kernel
+example : (Spec.normalise demo).toOption.map (fun d => (d.tensors.length, d.tensors.map (·.src))) =
+    some (8, [none, none, none, none, none, none, none, some 3]) := by decide +kernel
+example : (Spec.normalise demo).toOption.map (fun d => d.subgraphs.map fun s => s.ops.map (·.type)) =
+    some [["Const", "Placeholder", "Const", "Placeholder", "Const", "Conv2DBias", "Custom", "Custom"]] := by decide +kernel
+example : (Spec.normalise demo).toOption.map (fun d => d.subgraphs.map fun s => s.ops.map (·.inputs)) =
+    some [[[], [], [], [], [], [some 4, some 7, none], [some 5, some 0], [some 6, some 0]]] := by decide +kernel
+example : (Spec.normalise demo).toOption.map (fun d => d.subgraphs.map fun s => s.ops.map (·.outputs)) =
+    some [[[some 0], [some 1], [some 3], [some 4], [some 7], [some 5], [some 6], [some 2]]] := by decide +kernel
+example : (Spec.normalise demo).toOption.map (fun d => d.subgraphs.map fun s => (s.originalInputs, s.outputTensors, s.originalOutputPositions)) =
+    some [([4, 1], [2], some [0, 0])] := by decide +kernel
+
+/-- … and the two sides of the theorem evaluate to the same graph on it -/
+example : ((write demo).toOption.bind fun m => (Reader.read demo.version m).toOption) = (Spec.normalise demo).toOption ∧
+    (Spec.normalise demo).toOption.isSome = true := by decide +kernel
+
+/-- **read_write_roundtrip_witness (the reader rejects a model output).** Outside the domain: a subgraph whose original input `y`
+is the result of the written convolution — the writer accepts, the reader raises `Tensor.error` on the written file, and `normalise`
+fails with the same kind. -/
+theorem read_write_roundtrip_reject_witness :
+    let d : Desc := { demo with subgraphs := [{ Demo.sg with originalInputs := [3, 0] }, Demo.npu] }
+    ((write d).toOption.map fun m => (match Reader.read d.version m with | .ok _ => "ok" | .error e => e,
+      match Spec.normalise d with | .ok _ => "ok" | .error e => e)) = some ("vela-error", "vela-error") := by decide +kernel
+
+/-- **read_write_roundtrip_witness (normalise is not the identity).** An operator whose only result is absent (`None`) is written
+without results and vanishes on reading (it produces no tensor, so no traversal reaches it): 3 operators in the file, 2 non-producer
+operators in the graph read back. -/
+theorem read_write_roundtrip_resultless_witness :
+    let d : Desc := { demo with subgraphs := [{ Demo.sg with ops := Demo.sg.ops ++ [{ Demo.custom 1 4 7 with outputs := [none] }] }, Demo.npu] }
+    ((write d).toOption.map fun m => (m.subgraphs.map (·.operators.length),
+      (Spec.normalise d).toOption.map fun g => g.subgraphs.map fun s => (s.ops.filter fun o => o.type != "Const" && o.type != "Placeholder").length)) =
+      some ([4], some [3]) := by decide +kernel
+
 /-! ## file → graph → file (what C11 asks of a compilation that changes nothing), layer by layer -/
 
 /-- **file_opcode_preserved.** An operator-code entry the reader accepts is written back with the same builtin code (as
@@ -574,6 +681,84 @@ example : (metadataToWrite { Demo.demo with metadata := [{ nameIsBytes := false,
 /-- the ranges themselves, for the record -/
 example : Spec.fullRange true 16 = (-32768, 32767) ∧ Spec.fullRange true 8 = (-128, 127) ∧ Spec.fullRange false 8 = (0, 255) ∧
     Spec.fullRange true 32 = (-2147483648, 2147483647) := by decide
+
+/-! ## the executable Spec accepts every output of the writer model
+
+`Spec.conforms d t` is the checker the harness applies to the REAL files (`wspec`). It shares only the graph meaning with the model
+(`prepSub`, `clearVirtual`, `removeVirtual`); every layout decision is checked relationally on the file. `conforms_write` ties it to
+the model for all inputs: whatever the writer model produces, the checker accepts — so a `wspec` rejection of a real file is a
+disagreement between the real writer and the model's *properties* (`written_tensors`, `written_operators`, …), never an artefact of
+the checker. The domain (`Spec.conformsDomainB`, executable) has three clauses, each with a witness below that it is needed:
+the checker is stricter than the writer there. -/
+
+/-- **conforms_write.** For every description `d` in the domain — at least one subgraph is written; every subgraph output (virtual
+outputs removed) is named by the expanded output list or written anyway; a Placeholder has no operands or intermediates of its own — the
+Spec's checker finds no problem in the file `writeWith d enum` produces (any iteration order `enum` of the code set). -/
+theorem conforms_writeWith (d : Desc) (enum : List Code) (m : ModelT) (hd : Spec.conformsDomainB d = true)
+    (h : writeWith d enum = .ok m) : Spec.conforms d m = [] := by
+  have hne : m.subgraphs ≠ [] := by
+    obtain ⟨subs, h1, hl, _⟩ := Spec.write_sgFacts d enum m h
+    obtain ⟨hl0, _⟩ := mapM_ok _ _ _ h1
+    unfold Spec.conformsDomainB at hd
+    simp only [Bool.and_eq_true, Bool.not_eq_true', List.isEmpty_eq_false_iff] at hd
+    intro hn
+    rw [hn] at hl
+    have : subs = [] := List.length_eq_zero_iff.mp hl.symm
+    rw [this] at hl0
+    exact hd.1 (List.length_eq_zero_iff.mp hl0.symm)
+  exact Spec.conforms_writeWith d enum m h hd (Spec.wellFormed_write d enum m h hne)
+    (fun subs hs rels hr => Spec.metadataProblems_write d enum m h subs hs rels hr)
+
+theorem conforms_write (d : Desc) (m : ModelT) (hd : Spec.conformsDomainB d = true) (h : write d = .ok m) :
+    Spec.conforms d m = [] := by
+  cases hs : (subgraphsToWrite d).mapM (prepSub d.tensors) with
+  | error e => rw [(write_err d e hs []).1] at h; exact absurd h (by simp)
+  | ok subs =>
+    rw [write_eq d subs hs] at h
+    exact conforms_writeWith d _ m hd h
+
+/-- not vacuous: the demo graph (convolution with restored weights, two custom operators, unused input, repeated output entry,
+arena and scratch tensors, an NPU subgraph that is not written) is in the domain, the writer accepts it, and the checker evaluates
+to "no problem" on the written file -/
+example : Spec.conformsDomainB demo = true ∧ (write demo).toOption.isSome = true ∧
+    (write demo).toOption.map (Spec.conforms demo) = some [] := by decide +kernel
+
+/-- … and the checker is not trivially empty: the same file does not conform to the graph with the two subgraph inputs swapped -/
+example : ((write demo).toOption.map fun m =>
+    (Spec.conforms { demo with subgraphs := [{ Demo.sg with originalInputs := [5, 0] }, Demo.npu] } m).isEmpty) = some false := by
+  decide +kernel
+
+/-- **conforms_write_witness (no Cpu subgraph).** Without a written subgraph the writer puts the `vela_version` buffer at index 0;
+the Spec (and TFLite: buffer 0 is the empty sentinel) rejects — the first domain clause is needed. In Vela the CPU subgraph always
+exists (the network's entry subgraph). -/
+theorem conforms_write_no_cpu_witness :
+    let d : Desc := { tensors := [], subgraphs := [Demo.npu], metadata := [], version := [49] }
+    ((write d).toOption.map fun m => (Spec.conforms d m).map (·.kind)) = some ["buffer-0-not-empty"] := by decide +kernel
+
+/-- **conforms_write_witness (unlisted output).** Since the repair C11-60 every subgraph output that is left after the virtual outputs
+were removed is written. One that the original output positions do not name — here `w_reshape` (tensor 2, the result of a `Const`
+nobody reads; positions `[0]` of outputs `[7, 2]`) — is in the file's tensor table without any operator or interface list referring
+to it; the Spec reports it — the second domain clause is needed. (Before the repair the same graph with positions `none` was the
+witness of the opposite defect: the listed output was dropped, `operand-count`.) -/
+theorem conforms_write_unlisted_output_witness :
+    let d : Desc := { demo with subgraphs := [{ Demo.sg with outputTensors := [7, 2], originalOutputPositions := some [0] }, Demo.npu] }
+    ((write d).toOption.map fun m => (Spec.conformsDomainB d, (m.subgraphs.map (·.tensors.length)), (Spec.conforms d m).map (·.kind))) =
+      some (false, [8], ["unexplained-tensor"]) := by decide +kernel
+
+/-- the graph of the old witness (outputs `[7, 2]`, tensor 2 only named by the output list) is now in the domain and both outputs are
+in the file -/
+example :
+    let d : Desc := { demo with subgraphs := [{ Demo.sg with outputTensors := [7, 2], originalOutputPositions := none }, Demo.npu] }
+    ((write d).toOption.map fun m => (Spec.conformsDomainB d, m.subgraphs.map (·.outputs), (Spec.conforms d m).map (·.kind))) =
+      some (true, [some [2, 4]], []) := by decide +kernel
+
+/-- **conforms_write_witness (Placeholder with an operand).** The writer adds the operands of Placeholders to the tensor table; one
+that nothing else refers to is in the file without any operator or interface list naming it; the Spec explains unreferenced tensors
+only as Placeholder *results* — the third domain clause is needed (Vela's Placeholders have no operands). -/
+theorem conforms_write_placeholder_operand_witness :
+    let d : Desc := { demo with subgraphs := [{ Demo.sg with ops := [{ Demo.startup "Placeholder" 0 with inputs := [some 2] }] ++ Demo.sg.ops.drop 1 }, Demo.npu] }
+    ((write d).toOption.map fun m => (Spec.conformsDomainB d, (Spec.conforms d m).map (·.kind))) =
+      some (false, ["unexplained-tensor"]) := by decide +kernel
 
 /-! ## non-vacuity: a concrete graph in the writer's domain (Model/TfliteDemo.lean) -/
 
